@@ -122,6 +122,11 @@ class Ctx:
     # ------------------------------------------------------------- reporting
     def finish(self, level, explanation, trusted_base, checker_cmd, assumptions=None, level_note=None):
         known = load_known()
+        global EVIDENCE_DIR, REPLAY_DIR
+        if self.repo and os.path.realpath(self.repo) != os.path.realpath(factsmod.REPO):
+            # scratch copies (self-test, development) never overwrite the evidence of /repo itself
+            EVIDENCE_DIR = os.path.join(factsmod.CACHE, "scratch-evidence")
+            REPLAY_DIR = os.path.join(EVIDENCE_DIR, "replay")
         os.makedirs(REPLAY_DIR, exist_ok=True)
         wall = time.time() - self.t0
         new_violations = []
